@@ -417,17 +417,19 @@ Qed.
 Example metropolis_ex : sample_metropolis ROps (fun x => x) 1 0 1 0 [0; 1] [/2] = Ok ([], []).
 Proof. reflexivity. Qed.
 
-(** ** boundary of the stream: the canonical uniform 0 makes Sample_Gauss terminate the process
-    (Quantile_Gauss(0) = -infinity: Inv_Erf(-1) takes its `|p| >= 1` exit, while Inv_Erf(1) returns 10) *)
-Theorem sample_gauss_exits_at_zero mean sd r : sample_gauss ROps mean sd (0 :: r) = Exit.
+(** ** boundary of the stream: the canonical uniform 0 (in doubles: every canonical uniform <= 2^-55, for which 2u - 1
+    rounds to -1) makes Sample_Gauss return mean - 10 sqrt(2) sd: Inv_Erf(-1) returns -10 like Inv_Erf(1) returns 10
+    (it used to take the `|p| >= 1` exit and terminate the process) *)
+Theorem sample_gauss_at_zero mean sd r : sample_gauss ROps mean sd (0 :: r) = Ok (mean + sqrt 2 * sd * - (10), r).
 Proof.
   unfold sample_gauss, gauss_of, quantile_gauss. rewrite unif01_R. unfold inv_erf.
-  cbn [nmul nsub nabs nltb nlit nofZ n1 ROps]. unfold ngeb. cbn [nleb nabs n1 ROps].
-  replace (2 * 0 - 1 - 1) with (-2) by ring. replace (2 * 0 - 1) with (-1) by ring.
+  cbn [nmul nsub nadd nabs nltb nlit nofZ n1 nneg nsqrt ROps]. unfold ngeb. cbn [nleb nabs n1 ROps].
+  replace (2 * 0 - 1 - 1) with (-2) by ring. replace (2 * 0 - 1 + 1) with 0 by ring.
   assert (Rabs (-2) = 2) as -> by (unfold Rabs; destruct (Rcase_abs (-2)); lra).
-  assert (Rabs (-1) = 1) as -> by (unfold Rabs; destruct (Rcase_abs (-1)); lra).
+  rewrite Rabs_R0.
   destruct (Rltb_spec 2 (1 / 10000000000000000)); [lra|].
-  destruct (Rleb_spec 1 1); [reflexivity|lra].
+  destruct (Rltb_spec 0 (1 / 10000000000000000)); [|lra].
+  cbn [rbind]. reflexivity.
 Qed.
 
 (** ** totality of the Poisson sampler: the stream runs out ([Fuel]) only if no prefix product has reached
